@@ -97,6 +97,11 @@ pub mod clock {
         }
     }
 
+    /// simulated nanoseconds since the start of the run
+    pub fn elapsed_ns() -> u64 {
+        NOW_NS.with(|n| n.get().saturating_sub(EPOCH_NS))
+    }
+
     /// number of times the code under test (or anything else on this thread) read a clock
     /// during the current run
     pub fn reads() -> u64 {
